@@ -211,7 +211,7 @@ package workers
 //@   modifies p.stopWorkers, p.jobsToExecute.num, GMiter, p.manager.activeScenario.progress.successfulIterationDurations.running, p.manager.activeScenario.progress.failedIterationDurations.running,
 //@            p.manager.activeScenario.progress.droppedIterationCount, NrecS, NrecF, NrecD, SumS, SumF, MinS, MinF, MaxS, MaxF
 //@   ensures [stopped] p.stopWorkers && p.jobsToExecute.num == 0
-//@   ensures [pending-dropped] NrecD == (old(NrecD) + max(0, old(p.jobsToExecute.num))) % 18446744073709551616 && NrecS == old(NrecS) && NrecF == old(NrecF)
+//@   ensures [pending-dropped] (limitReached(p.manager) ? NrecD == old(NrecD) : NrecD == (old(NrecD) + max(0, old(p.jobsToExecute.num))) % 18446744073709551616) && NrecS == old(NrecS) && NrecF == old(NrecF)
 //@
 //@ func (*TriggerPool).maxIterationsReached
 //@   props C02 C03 C05
@@ -259,6 +259,7 @@ package workers
 //@   dyncall workerCtxCancel : cancelFunc
 //@   modifies nothing
 //@
+//@ pred limitReached(m *PoolManager) = m.maxIterations > 0 && m.iteration > m.maxIterations
 //@ pred wfStates(pool []*iterationState) = (forall a int :: 0 <= a && a < len(pool) ==> wfState(pool[a])) &&
 //@     (forall a int, b int :: 0 <= a && a < b && b < len(pool) ==> pool[a] != pool[b] && pool[a].t != pool[b].t)
 //@ pred wfTriggerPool(p *TriggerPool) = p != nil && wfManager(p.manager) && p.numWorkers == len(p.iterationStatePool) &&
@@ -320,7 +321,7 @@ package workers
 //@   requires wfTriggerPool(p) && ctx != nil
 //@   ghost after call invoke:Err : G2cancelled = (ret0 != nil)
 //@   ghost before call (*TriggerPool).sendJobsForExecution : assert [unchanged] arg1 == numJobs && arg0 == p
-//@   ensures [every-live-tick-supersedes] (!G2cancelled && (numJobs <= 0 || !old(p.stopWorkers))) ==> (p.jobsToExecute.num == numJobs && NrecD == (old(NrecD) + max(0, old(p.jobsToExecute.num))) % 18446744073709551616)
+//@   ensures [every-live-tick-supersedes] (!G2cancelled && (numJobs <= 0 || !old(p.stopWorkers))) ==> (p.jobsToExecute.num == numJobs && (limitReached(p.manager) ? NrecD == old(NrecD) : NrecD == (old(NrecD) + max(0, old(p.jobsToExecute.num))) % 18446744073709551616))
 //@   ensures [cancelled-or-stopped-tick-ignored] (G2cancelled || (numJobs > 0 && old(p.stopWorkers))) ==> (p.jobsToExecute.num == old(p.jobsToExecute.num) && NrecD == old(NrecD))
 //@   modifies G2cancelled, p.jobsToExecute.num, GMiter, p.manager.activeScenario.progress.successfulIterationDurations.running, p.manager.activeScenario.progress.failedIterationDurations.running,
 //@            p.manager.activeScenario.progress.droppedIterationCount, NrecS, NrecF, NrecD, SumS, SumF, MinS, MinF, MaxS, MaxF
@@ -337,8 +338,9 @@ package workers
 //@            p.manager.activeScenario.progress.droppedIterationCount, NrecS, NrecF, NrecD, SumS, SumF, MinS, MinF, MaxS, MaxF
 //@   loop 0 invariant (numJobs <= 0 || !old(p.stopWorkers)) && wfTriggerPool(p) && 0 <= rangeiter && rangeiter < jobsDiscarded && p.manager == old(p.manager) && p.manager.activeScenario == old(p.manager.activeScenario) && p.manager.activeScenario.progress == old(p.manager.activeScenario.progress) && NrecD == (old(NrecD) + rangeiter) % 18446744073709551616 && NrecS == old(NrecS) && NrecF == old(NrecF) && p.jobsToExecute.num == numJobs
 //@   ensures [replaced] wfTriggerPool(p) && ((numJobs <= 0 || !old(p.stopWorkers)) ==> p.jobsToExecute.num == numJobs)
-//@   ensures [superseded-dropped] NrecS == old(NrecS) && NrecF == old(NrecF) && ((numJobs <= 0 || !old(p.stopWorkers)) ==> NrecD == (old(NrecD) + max(0, old(p.jobsToExecute.num))) % 18446744073709551616)
+//@   ensures [superseded-dropped] NrecS == old(NrecS) && NrecF == old(NrecF) && ((numJobs <= 0 || !old(p.stopWorkers)) && !limitReached(p.manager) ==> NrecD == (old(NrecD) + max(0, old(p.jobsToExecute.num))) % 18446744073709551616)
 //@   ensures [refused-once-stopped] (numJobs > 0 && old(p.stopWorkers)) ==> (p.jobsToExecute.num == old(p.jobsToExecute.num) && NrecD == old(NrecD))
+//@   ensures [limit-discards-are-silent] limitReached(p.manager) ==> NrecD == old(NrecD)
 //@
 //@ // ---- C02 under interleaving (variant @conc): a tick races with the shutdown path. G2pool is the pool under
 //@ // discussion; the environment (fnspec poolEnv) is every other thread of that pool: workers take pending requests
@@ -377,6 +379,14 @@ package workers
 //@   ensures [seen-running-means-not-drained-then] result ==> (heldLocker(p.jobsAvailableCond.L) ==> !G2stopDone)
 //@   ensures [monotone] (old(G2stopDone) ==> G2stopDone) && (old(p.stopWorkers) ==> p.stopWorkers) && (G2stopDone ==> p.stopWorkers) && stoppedMeansEmpty(p)
 //@   ensures [stop-needs-the-lock] heldLocker(p.jobsAvailableCond.L) ==> G2stopDone == old(G2stopDone)
+//@
+//@ func (*PoolManager).MaxIterationsReached @conc
+//@   props C02
+//@   interference poolEnv(G2pool)
+//@   requires m != nil && G2pool != nil && (G2stopDone ==> G2pool.stopWorkers)
+//@   modifies G2pool.jobsToExecute.num, G2pool.stopWorkers, G2stopDone
+//@   ensures [env] (old(G2stopDone) ==> G2stopDone) && (old(G2pool.stopWorkers) ==> G2pool.stopWorkers) && (G2stopDone ==> G2pool.stopWorkers)
+//@   ensures [env-count] G2pool.jobsToExecute.num <= max(old(G2pool.jobsToExecute.num), 0) && ((G2stopDone && !old(G2stopDone)) ==> G2pool.jobsToExecute.num <= 0)
 //@
 //@ func (*ActiveScenario).RecordDroppedIteration @conc
 //@   props C02
